@@ -47,3 +47,13 @@ Theorem C05_unlisted_untouched :
     (forall p, In p ps -> key_of ow p <> k) -> lookup k (w_store w') = lookup k (w_store w).
 Proof. exact td_objs_frame. Qed.
 Print Assumptions C05_unlisted_untouched.
+
+(** The request-level monitor evaluated on the implementation's teardown passes (coq/corr/C05Corr.v)
+    accepts every teardown pass of the model, for every world, phase, owner, strategy and third-party
+    activity between read and write. *)
+From PKOCorr Require Import PhaseCorr C05Corr C05Sound.
+Theorem C05_monitor_sound :
+  forall c : pcase, pc_teardown c = true ->
+    forallb (ev_okb (set_obs c (model_run c))) (pc_events (set_obs c (model_run c))) = true.
+Proof. exact monitor_requests_sound. Qed.
+Print Assumptions C05_monitor_sound.
